@@ -1,4 +1,28 @@
-Require Import Model.Base Corr.Common Corr.Draw.
-Definition oracle (v : verdict) : bool := v_results_ok v && v_writes v.
-Definition check (x : pcase * pout) : Z := code (corr_exact (fst x) (snd x)) (oracle (verdict_of x)).
-Definition model_out := Corr.Draw.model_out.
+(* Corr/C04.v — fill_contiguous programs, and the source-extracted 16-bit-pointer helper variants *)
+Require Import Model.Base Model.Ptr16 Corr.Common Corr.Draw.
+Open Scope Z_scope.
+Inductive c4case := C4P (pc : pcase) | C4Take (md : mode) (n : Z) (l : list Z) | C4Nth (n : Z) (l : list Z).
+Inductive c4out := C4PO (p : pout) | C4H (found : Z) (items : list Z) (rest : list Z).
+
+Definition oracle_p (v : verdict) : bool := v_results_ok v && v_writes v.
+
+Definition check (x : c4case * c4out) : Z :=
+  match x with
+  | (C4P pc, C4PO p) => code (corr_exact pc p) (oracle_p (judge pc p))
+  | (C4Take md n l, C4H found items rest) =>
+      (* both helper items were found in the source; model = implementation; and the items are what
+         Iterator::take yields *)
+      code (match take_u32_16 md l n with
+            | Ok (a, b) => zlist_eqb a items && zlist_eqb b rest
+            | _ => false
+            end)
+           ((found =? 2) && zlist_eqb items (firstnZ n l))
+  | (C4Nth n l, C4H found items rest) =>
+      let '(r, b) := nth_u32_16 l n in
+      code (zlist_eqb items [match r with Some v => v | None => -1 end] && zlist_eqb b rest)
+           ((found =? 2) && zlist_eqb items [match skipnZ n l with v :: _ => v | [] => -1 end]
+            && zlist_eqb rest (skipnZ (n + 1) l))
+  | _ => 3
+  end.
+Definition model_out (c : c4case) :=
+  match c with C4P pc => option_map C4PO (run_pcase pc) | _ => None end.
